@@ -404,19 +404,11 @@ func (svr *Server) Serve() error {
 		}
 
 		pkt, err = makePacket(rxPacket{pktType, pktBytes})
-		if err != nil {
-			switch {
-			case errors.Is(err, errUnknownExtendedPacket):
-				//if err := svr.serverConn.sendError(pkt, ErrSshFxOpUnsupported); err != nil {
-				//	debug("failed to send err packet: %v", err)
-				//	svr.conn.Close() // shuts down recvPacket
-				//	break
-				//}
-			default:
-				debug("makePacket err: %v", err)
-				svr.conn.Close() // shuts down recvPacket
-				break
-			}
+		if err != nil && !errors.Is(err, errUnknownExtendedPacket) {
+			// A malformed packet must not be dispatched: stop serving.
+			debug("makePacket err: %v", err)
+			svr.conn.Close() // shuts down recvPacket
+			break
 		}
 
 		pktChan <- svr.pktMgr.newOrderedRequest(pkt)
